@@ -59,6 +59,11 @@ def run(ctx):
     ctx.uses('distributions', 'utils', 'streams')
     dists = concrete_dists(prog)
     ctx.floor('R15', 'concrete distributions', len(dists), 19)
+    # first: what a distribution declares must be a function of its own parameters -- a memo, table or helper object shared by all objects of
+    # the class answers for whichever object filled it first (shared rule with C14)
+    from ..statrules import shared_class_state
+    shared_class_state(ctx, 'R15.8', sorted(c for c, ci in prog.classes.items() if ci.module.name == 'distributions'),
+                       'the densities / probabilities one distribution declares are those another one computed: they no longer match its own parameters and draws')
     ctx.assume('arguments and constructor parameters are finite numbers; real-number semantics without overflow or rounding')
     ctx.trust('my transcription of the documented supports into the checker table (from the class docstrings)')
     targets = []
